@@ -3,7 +3,7 @@ import AnySyncModel.Driver.NodeConf
 import AnySyncModel.Space.Model
 /-! line protocol for area `space` (C13)
 
-  o2o <a> <b> <type>   → symbolic term of the derived space (joint key, sorted writers, type)
+  o2o <a> <b> <type> <mont a> <mont b>  → symbolic term of the derived space (shared secret | KDF context, sorted writers, type)
   val <mode> p=<hnil>,<hid>,<raw>,<aid>,<acl>,<aclnil>,<sid>,<set>,<setnil> <entry> …
      mode  = `full`                          → `ok` | `err:<class>`
            | `hdr:<key|->:<acl|->:<set|->`   → `ok:<needCheckSpaceId>` | `err:<class>`
@@ -140,15 +140,20 @@ def step (line : String) : String :=
         | _, _, _ => "bad-op"
       | _ => "bad-op"
     | _, _ => "bad-op"
-  | ["o2o", a, b, ty] =>
-    -- symbolic one-to-one derivation: secret key n has public key n; X25519 is the canonical
-    -- commutative pairing; the answer is the term, compared with the real outputs up to renaming
-    match a.toNat?, b.toNat?, ty.toNat? with
-    | some a, some b, some ty =>
-      let D : DH := { pub := id, dh := fun x y => (min x y) * 1000003 + max x y, kdf := fun s _ _ => s }
+  | ["o2o", a, b, ty, ma, mb] =>
+    -- symbolic one-to-one derivation: secret key n has identity n; the X25519 images of the two
+    -- identities are data (`ma`, `mb`, computed by the real conversion); X25519 is the canonical
+    -- commutative pairing; the answer is the term (shared secret | KDF context, writers, type),
+    -- compared with the real outputs up to renaming
+    match a.toNat?, b.toNat?, ty.toNat?, ma.toNat?, mb.toNat? with
+    | some a, some b, some ty, some ma, some mb =>
+      let mont := fun x => if x = a then ma else if x = b then mb else x + 1000003
+      let D : DH := { pub := id, mont := mont,
+                      dh := fun sk u => (min (mont sk) u) * 1000003 + max (mont sk) u, kdf := fun s _ => s }
       let c := oneToOneCore D a b ty
-      s!"K{c.shared} W{c.writers.1},{c.writers.2} T{c.ty}"
-    | _, _, _ => "bad-op"
+      let ctx := kdfContext D AnySync.Generated.Space.kdfContextFromIdentities (D.pub a) b
+      s!"K{D.dh a (D.mont b)}|{ctx.1},{ctx.2} W{c.writers.1},{c.writers.2} T{c.ty}"
+    | _, _, _, _, _ => "bad-op"
   | _ => "bad-op"
 
 end AnySync.Driver.Space
